@@ -756,6 +756,9 @@ class Emitter:
     def cty(s, t):
         if isinstance(t, IntT):
             if t.w in UX: return UX[t.w]
+            if t.w % 8 == 0 and t.w < 64:
+                # ABI coercion of small structs (i24, i40, i48, i56): held in the next wider unsigned type; only load/store/call/ret use it
+                return UX[32] if t.w < 32 else UX[64]
             raise Unsupported('integer width %d' % t.w)
         if isinstance(t, FpT): return t.k
         if isinstance(t, VoidT): return 'void'
@@ -1105,11 +1108,30 @@ class Emitter:
                 n, l = loop_of_header[bi]
                 lc = lcontracts[n]
                 code.append('%s: ;' % lab(b.name))
-                code.append('while (1)')
-                if lc.get('assigns') is not None: code.append('  __CPROVER_assigns(%s)' % lc['assigns'])
-                for inv in lc.get('invariant', []): code.append('  __CPROVER_loop_invariant(%s)' % inv)
-                if lc.get('decreases'): code.append('  __CPROVER_decreases(%s)' % lc['decreases'])
-                code.append('{')
+                if contract.get('mode') == 'vc':
+                    # own loop-contract verification conditions (what --apply-loop-contracts does), as plain assert/assume so that the
+                    # exported formula can go to the int-blast / z3 back ends: base case, havoc, assume invariant, one arbitrary iteration
+                    inv = ' && '.join('(%s)' % i for i in lc.get('invariant', ['1']))
+                    code.append('__CPROVER_assert(%s, "LOOP:invariant-base %s loop %d");' % (inv, short, n))
+                    if lc.get('assigns') is None: raise Unsupported('vc mode needs an explicit loop assigns clause')
+                    for nm in [x.strip() for x in lc['assigns'].split(',') if x.strip()]:
+                        if nm not in decls: raise Unsupported('loop assigns target %s is not a local of %s' % (nm, fn))
+                        s.ncount += 1
+                        code.append('{ %s ll2c_hv%d; %s = ll2c_hv%d; }' % (decls[nm], s.ncount, nm, s.ncount))
+                    code.append('__CPROVER_assume(%s);' % inv)
+                    code.append('#ifdef LL2C_CASE_EXPR')
+                    code.append('__CPROVER_assume(LL2C_CASE_EXPR);   /* case split of the havocked state; the cases are enumerated by separate obligations */')
+                    code.append('#endif')
+                    if lc.get('decreases'):
+                        code.append('ll2c_variant%d = (%s);' % (n, lc['decreases']))
+                        decls['ll2c_variant%d' % n] = 'unsigned __int128'; order.append('ll2c_variant%d' % n)
+                    code.append('{')
+                else:
+                    code.append('while (1)')
+                    if lc.get('assigns') is not None: code.append('  __CPROVER_assigns(%s)' % lc['assigns'])
+                    for inv in lc.get('invariant', []): code.append('  __CPROVER_loop_invariant(%s)' % inv)
+                    if lc.get('decreases'): code.append('  __CPROVER_decreases(%s)' % lc['decreases'])
+                    code.append('{')
             else:
                 code.append('%s: ;' % lab(b.name))
             for ins in b.ins:
@@ -1133,12 +1155,23 @@ class Emitter:
                         if isinstance(v, CZero):
                             code.append('memset(%s, 0, sizeof(%s));' % (val(pt, ptr), s.cty(t)))
                         # undef aggregate store: leaves memory nondet -> nothing to do
+                    elif isinstance(t, (NamedT, LitStructT, ArrT)):
+                        # aggregate copies go through memcpy: the pointer is often a bitcast between layout-compatible struct types
+                        code.append('memcpy(%s, &%s, sizeof(%s));' % (val(pt, ptr), e, s.cty(t)))
+                    elif isinstance(t, IntT) and t.w not in UX:
+                        s.ncount += 1
+                        code.append('{ %s ll2c_st%d = %s; memcpy(%s, &ll2c_st%d, %d); }' % (s.cty(t), s.ncount, e, val(pt, ptr), s.ncount, t.w // 8))
                     else:
                         code.append('*%s = %s;' % (val(pt, ptr), e))
                 elif op == 'load':
                     t, pt, ptr = a
                     d = decl(dst, t)
-                    code.append('%s = *%s;' % (d, val(pt, ptr)))
+                    if isinstance(t, (NamedT, LitStructT, ArrT)):
+                        code.append('memcpy(&%s, %s, sizeof(%s));' % (d, val(pt, ptr), s.cty(t)))
+                    elif isinstance(t, IntT) and t.w not in UX:
+                        code.append('%s = 0; memcpy(&%s, %s, %d);' % (d, d, val(pt, ptr), t.w // 8))
+                    else:
+                        code.append('%s = *%s;' % (d, val(pt, ptr)))
                 elif op == 'getelementptr':
                     bt, pt, base, idx = a
                     e, rt = s.gep(bt, val(pt, base), idx)
@@ -1147,6 +1180,7 @@ class Emitter:
                 elif op in BINOPS:
                     flags, t, x, y = a
                     if not isinstance(t, IntT): raise Unsupported('vector/other binop')
+                    if t.w not in UX: raise Unsupported('arithmetic on i%d' % t.w)
                     w = t.w
                     d = decl(dst, t)
                     X, Y = val(t, x), val(t, y)
@@ -1388,6 +1422,8 @@ class Emitter:
                         cf = 'll2c_stub_' + san(cn)
                     elif cn in mod.funcs:
                         cf = s.fname(cn); calls.add(cn)
+                        if cn == fn and contract is not None and contract.get('recursive_stub'):
+                            cf = cf + '__rec'      # recursive call replaced by the function's own contract
                     else:
                         raise Unsupported('call to external function %s (from %s)' % (cn, fn))
                     call = '%s(%s)' % (cf, ', '.join(al))
@@ -1404,6 +1440,14 @@ class Emitter:
                     raise Unsupported('opcode %s' % op)
             for h in sorted(latch_close.get(bi, []), reverse=True):
                 code.append('%s__cont: ;' % lab(f.blocks[h].name))
+                if contract.get('mode') == 'vc':
+                    n_, l_ = loop_of_header[h]
+                    lc = lcontracts[n_]
+                    inv = ' && '.join('(%s)' % i for i in lc.get('invariant', ['1']))
+                    code.append('__CPROVER_assert(%s, "LOOP:invariant-step %s loop %d");' % (inv, short, n_))
+                    if lc.get('decreases'):
+                        code.append('__CPROVER_assert((unsigned __int128)(%s) < ll2c_variant%d, "LOOP:variant-decreases %s loop %d");' % (lc['decreases'], n_, short, n_))
+                    code.append('__CPROVER_assume(0);')
                 code.append('}')
         # prototype
         ps = []
@@ -1512,7 +1556,29 @@ def pure_stub(em, fn):
     return proto, '\n'.join(L), set()
 
 
-def emit_closure(mod, roots, srcroot='/repo/', abstract=(), contracts=None):
+def contract_stub(em, fn, contract, suffix=''):
+    """callee replaced by its contract (own implementation of --replace-call-with-contract for the assume/assert route):
+    assert the precondition at the call, return an unconstrained value that satisfies the postcondition; assigns must be empty"""
+    f = em.mod.funcs[fn]
+    if contract.get('assigns'): raise Unsupported('contract stub with a non-empty assigns clause')
+    ps = ', '.join('%s %s' % (em.cty(t), em.lname(nm)) for (t, nm, at) in f.params)
+    rt = em.cty(f.ret)
+    proto = '%s %s%s(%s)' % (rt, em.fname(fn), suffix, ps or 'void')
+    short = fn if len(fn) < 70 else fn[:67] + '...'
+    L = [proto + ' {']
+    for r in contract.get('requires', []):
+        if '__CPROVER_is_fresh' in r: raise Unsupported('is_fresh in a contract stub')
+        L.append('  __CPROVER_assert(%s, "CALLSITE:precondition of %s");' % (r, short))
+    if rt != 'void':
+        L.append('  %s ll2c_rv;' % rt)
+        for e in contract.get('ensures', []):
+            L.append('  __CPROVER_assume(%s);   /* callee contract */' % e.replace('__CPROVER_return_value', 'll2c_rv'))
+        L.append('  return ll2c_rv;')
+    L.append('}')
+    return proto, '\n'.join(L), set()
+
+
+def emit_closure(mod, roots, srcroot='/repo/', abstract=(), contracts=None, stubs=()):
     """returns (c_text, info) for the call-graph closure of roots.  Functions whose mangled name matches a
     regex in `abstract` are replaced by the pure-function contract stub."""
     em = Emitter(mod, srcroot=srcroot)
@@ -1523,11 +1589,18 @@ def emit_closure(mod, roots, srcroot='/repo/', abstract=(), contracts=None):
     def visit(n):
         if n in done: return
         done.add(n)
-        if any(r.search(n) for r in rxs) and n not in roots:
+        if n in stubs and n not in roots:
+            proto, text, calls = contract_stub(em, n, contracts[n])
+            abstracted.append(n)
+        elif any(r.search(n) for r in rxs) and n not in roots:
             proto, text, calls = pure_stub(em, n)
             abstracted.append(n)
         else:
-            proto, text, calls = em.translate(n, (contracts or {}).get(n))
+            c = (contracts or {}).get(n)
+            proto, text, calls = em.translate(n, c)
+            if c is not None and c.get('recursive_stub'):
+                p2, t2, _ = contract_stub(em, n, c, suffix='__rec')
+                protos.append(p2 + ';'); order.append(t2)
         protos.append(proto + ';')
         for c in sorted(calls): visit(c)
         order.append(text)
